@@ -189,14 +189,19 @@ pub fn calc_fee(w: &World, v: u32, notional: u128) -> u128 {
     let r: Option<mv::CalcFeeResponse> = w.q(&w.addr(v), &mv::QueryMsg::CalcFee { quote_asset_amount: Uint128::new(notional) });
     r.map(|f| f.toll_fee.u128() + f.spread_fee.u128()).unwrap_or(0)
 }
-fn spot_pnl(w: &World, v: u32, t: u32) -> Option<me::PositionUnrealizedPnlResponse> {
+pub fn spot_pnl(w: &World, v: u32, t: u32) -> Option<me::PositionUnrealizedPnlResponse> {
     w.q(&w.engine, &me::QueryMsg::UnrealizedPnl { vamm: w.addr(v).to_string(), trader: w.addr(t).to_string(), calc_option: me::PnlCalcOption::SpotPrice })
 }
 
 /// what a cw20 deployment would pull from the caller for this OpenPosition (net, >= 0)
 pub fn open_funds_cw20_rule(w: &World, v: u32, t: u32, side: &Side, margin: u128, lev: u128) -> u128 {
+    open_funds_cw20_detail(w, v, t, side, margin, lev).0
+}
+
+/// (what a cw20 deployment pulls, for a reversal that re-opens: (fresh margin needed beyond the released equity, released equity, fees))
+pub fn open_funds_cw20_detail(w: &World, v: u32, t: u32, side: &Side, margin: u128, lev: u128) -> (u128, Option<(i128, i128, u128)>) {
     let d = unit(w.d.decimals);
-    let on = match margin.checked_mul(lev) { Some(x) => x / d, None => return 0 };
+    let on = match margin.checked_mul(lev) { Some(x) => x / d, None => return (0, None) };
     let fees = calc_fee(w, v, on);
     let pos = w.position(v, t);
     let increase = match &pos {
@@ -204,20 +209,20 @@ pub fn open_funds_cw20_rule(w: &World, v: u32, t: u32, side: &Side, margin: u128
         Some(p) => (p.direction == mv::Direction::AddToAmm) == (*side == Side::Buy),
     };
     let sm = |n: u128| -> u128 { if lev == 0 { 0 } else { n.checked_mul(d).map(|x| x / lev).unwrap_or(0) } };
-    if increase { return sm(on) + fees; }
+    if increase { return (sm(on) + fees, None); }
     let p = pos.unwrap();
     let pn = spot_pnl(w, v, t);
-    let (pnotional, upnl) = match pn { Some(x) => (x.position_notional.u128(), x.unrealized_pnl), None => return fees };
-    if pnotional > on { return fees; }
+    let (pnotional, upnl) = match pn { Some(x) => (x.position_notional.u128(), x.unrealized_pnl), None => return (fees, None) };
+    if pnotional > on { return (fees, None); }
     // reversal: the whole position is closed for `out` quote, then the remainder re-opened
     let out: Option<Uint128> = w.q(&w.addr(v), &mv::QueryMsg::OutputAmount { direction: p.direction.clone(), amount: p.size.value });
     let out = out.map(|x| x.u128()).unwrap_or(0);
     let rest = if on > out { on - out } else { out - on };
-    if lev == 0 || rest / lev == 0 { return fees; }
+    if lev == 0 || rest / lev == 0 { return (fees, None); }
     // margin_to_vault = -old_margin - upnl + swap_margin(rest)
     let released: i128 = p.margin.u128() as i128 + if upnl.negative { -(upnl.value.u128() as i128) } else { upnl.value.u128() as i128 };
     let need = sm(rest) as i128 - released;
-    fees + if need > 0 { need as u128 } else { 0 }
+    (fees + if need > 0 { need as u128 } else { 0 }, Some((need, released, fees)))
 }
 
 /// what the engine's own native bookkeeping demands (as coded) for a reversal
@@ -251,7 +256,7 @@ pub struct Profile {
     pub len: usize,
     pub w_open: u64, pub w_close: u64, pub w_deposit: u64, pub w_withdraw: u64, pub w_liq: u64,
     pub w_funding: u64, pub w_block: u64, pub w_oracle: u64, pub w_cfg: u64, pub w_malformed: u64,
-    pub w_steer_liq: u64, pub w_pause: u64, pub w_caps: u64, pub w_pcf: u64, pub w_c16: u64,
+    pub w_steer_liq: u64, pub w_pause: u64, pub w_caps: u64, pub w_pcf: u64, pub w_c16: u64, pub w_band: u64,
 }
 
 impl Profile {
@@ -262,7 +267,7 @@ impl Profile {
             "funding" => { p.w_funding = 18; p.w_block = 18; p.w_oracle = 8; p.w_open = 30; }
             "caps" => { p.w_caps = 14; p.w_open = 45; }
             "pause" => { p.w_pause = 8; p.w_malformed = 8; }
-            "fluct" => { p.w_close = 20; p.w_block = 8; }
+            "fluct" => { p.w_close = 20; p.w_block = 8; p.w_band = 10; }
             "pcf" => { p.w_close = 12; p.w_block = 8; p.w_funding = 8; p.w_oracle = 6; p.w_open = 30; p.w_steer_liq = 3; p.w_pcf = 14; }
             "c16" => { p.w_c16 = 16; p.w_open = 30; p.w_steer_liq = 4; }
             _ => {}
@@ -271,7 +276,7 @@ impl Profile {
     }
     pub fn general(len: usize) -> Profile {
         Profile { len, w_open: 36, w_close: 10, w_deposit: 4, w_withdraw: 5, w_liq: 4, w_funding: 5, w_block: 14,
-                  w_oracle: 4, w_cfg: 2, w_malformed: 5, w_steer_liq: 7, w_pause: 1, w_caps: 2, w_pcf: 0, w_c16: 0 }
+                  w_oracle: 4, w_cfg: 2, w_malformed: 5, w_steer_liq: 7, w_pause: 1, w_caps: 2, w_pcf: 0, w_c16: 0, w_band: 0 }
     }
 }
 
@@ -350,7 +355,7 @@ pub fn steer_liquidatable(tr: &mut Tracer, w: &mut World, rng: &mut Rng, v: u32,
 pub fn history(tr: &mut Tracer, w: &mut World, rng: &mut Rng, p: &Profile) {
     let d = unit(w.d.decimals);
     let total = p.w_open + p.w_close + p.w_deposit + p.w_withdraw + p.w_liq + p.w_funding + p.w_block + p.w_oracle
-        + p.w_cfg + p.w_malformed + p.w_steer_liq + p.w_pause + p.w_caps + p.w_pcf + p.w_c16;
+        + p.w_cfg + p.w_malformed + p.w_steer_liq + p.w_pause + p.w_caps + p.w_pcf + p.w_c16 + p.w_band;
     for _ in 0..p.len {
         let nv = w.vamms.len() as u64;
         let v = ID_VAMM0 + rng.below(nv) as u32;
@@ -502,6 +507,32 @@ pub fn history(tr: &mut Tracer, w: &mut World, rng: &mut Rng, p: &Profile) {
                 }
             }
             tr.step(w, &Op::Vamm { sender: ID_OWNER, v, m: VMsg::UpdCfg { hold: None, oi: None, toll: None, spread: None, fluct: Some(0), engine: None, ifund: None, feed: None, twap: None } });
+        } else if take(p.w_band) {
+            // a close (which may go over the band) pushes the price outside it; then opens in the opposite
+            // direction, sized to land back inside the band, are attempted in the same block
+            let ps = with_position(w);
+            if ps.is_empty() { continue; }
+            let (v, t) = *ps.iter().max_by_key(|(vv, tt)| w.position(*vv, *tt).map(|p| p.notional.u128()).unwrap_or(0)).unwrap();
+            tr.step(w, &Op::Block { dt: 5 + rng.below(50), dh: 1 });
+            let cfg = eng_cfg(w);
+            let whole = rng.chance(1, 2);
+            if whole { tr.step(w, &Op::Eng { sender: ID_OWNER, funds: 0, m: EMsg::UpdCfg { owner: None, ifund: None, fpool: None, init: None, maint: None, plr: Some(d), liqfee: None } }); }
+            let tight = *rng.pick(&[d / 500, d / 100, d / 50, d / 20]);
+            tr.step(w, &Op::Vamm { sender: ID_OWNER, v, m: VMsg::UpdCfg { hold: None, oi: None, toll: None, spread: None, fluct: Some(tight), engine: None, ifund: None, feed: None, twap: None } });
+            let q0 = vamm_state(w, v).quote_asset_reserve.u128();
+            tr.step(w, &Op::Eng { sender: t, funds: 0, m: EMsg::Close { vamm: v, limit: 0 } });
+            let q1 = vamm_state(w, v).quote_asset_reserve.u128();
+            let (side, gap) = if q1 < q0 { (Side::Buy, q0 - q1) } else { (Side::Sell, q1 - q0) };
+            let others: Vec<u32> = TRADERS.iter().cloned().filter(|x| *x != t).collect();
+            for (num, den) in [(1u128, 2u128), (9, 10), (1, 1), (1, 50)] {
+                let who = *rng.pick(&others);
+                let notional = gap * num / den;
+                if notional == 0 { continue; }
+                let lev = if rng.chance(1, 2) { d } else { d * 2 };
+                let op = mk_open(w, who, v, side.clone(), notional * d / lev + 1, lev, 0);
+                tr.step(w, &op);
+            }
+            if whole { tr.step(w, &Op::Eng { sender: ID_OWNER, funds: 0, m: EMsg::UpdCfg { owner: None, ifund: None, fpool: None, init: None, maint: None, plr: Some(cfg.partial_liquidation_ratio.u128()), liqfee: None } }); }
         } else if take(p.w_c16) {
             // within ONE block: a trader touches (or does not touch) a position, a liquidation happens on the
             // same vAMM, then the trader / the liquidator / a bystander act again
